@@ -228,6 +228,78 @@ def plain(tool_args, timeout=300):
     return run([TOOL] + list(tool_args), timeout=timeout)
 
 
+# ------------------------------------------------------------------ separate interpreter processes
+
+def user_env(hashseed=None):
+    """environment of a tool run as a USER has it: like tool_env(), but str hashes are salted per
+    interpreter process (PYTHONHASHSEED unset = 'random') or fixed to the given value.  ./check
+    pins PYTHONHASHSEED=0 for its own determinism; a child inherits that unless told otherwise, and
+    a pinned salt hides every dependence on hash() / set order of strings."""
+    env = tool_env()
+    if hashseed is None:
+        env.pop("PYTHONHASHSEED", None)
+    else:
+        env["PYTHONHASHSEED"] = str(hashseed)
+    return env
+
+
+def python_run(code, argv=(), hashseed=None, timeout=300):
+    """`python -c code argv...` in a fresh interpreter (own session) with user_env(hashseed)"""
+    return run([PY, "-c", code] + list(argv), timeout=timeout, env=user_env(hashseed))
+
+
+# ------------------------------------------------------------------ forked children (call histories)
+
+def in_fork(fn, timeout=120):
+    """fn() in a forked child: the child starts from a copy-on-write copy of THIS process (so
+    whatever module-level state the parent has; a parent that never called the library gives every
+    child the state 'just imported') and nothing it does survives it.
+    -> ("ok", json-able value of fn()) | ("raised", text) | ("died", "signal N" | "exit N") |
+       ("hang", "no result after T s")"""
+    import json
+
+    r, w = os.pipe()
+    sys.stdout.flush()
+    sys.stderr.flush()
+    pid = os.fork()
+    if pid == 0:
+        code = 3
+        try:
+            os.close(r)
+            signal.signal(signal.SIGALRM, signal.SIG_DFL)
+            signal.alarm(int(timeout))
+            try:
+                out = ("ok", fn())
+            except BaseException:
+                import traceback
+
+                out = ("raised", traceback.format_exc()[-3000:])
+            data = json.dumps(out).encode()
+            while data:
+                n = os.write(w, data)
+                data = data[n:]
+            code = 0
+        finally:
+            os._exit(code)
+    os.close(w)
+    chunks = []
+    while True:
+        c = os.read(r, 1 << 16)
+        if not c:
+            break
+        chunks.append(c)
+    os.close(r)
+    _, status = os.waitpid(pid, 0)
+    if os.WIFSIGNALED(status):
+        if os.WTERMSIG(status) == signal.SIGALRM:
+            return ("hang", "no result after %d s" % timeout)
+        return ("died", "signal %d" % os.WTERMSIG(status))
+    if os.WEXITSTATUS(status) != 0:
+        return ("died", "exit %d" % os.WEXITSTATUS(status))
+    out = json.loads(b"".join(chunks).decode())
+    return tuple(out)
+
+
 # ------------------------------------------------------------------ python-level fallback
 
 PY_POINTS = ("before_save", "after_save", "after_print")
